@@ -130,7 +130,7 @@ type Ctx struct {
 	viewAPI  string                  // which view entry point viewRows uses ("" = View, "custom", "query")
 	topMark  func() uint64           // newest CAS of the bucket, if the driver knows one outside the operation's collection
 	onShown  func(cas uint64)        // called inside Update-style callbacks with the CAS of the version shown
-	swapDDoc func(coll string) error // replaces the design document of a collection by the other variant
+	swapDDoc func(coll, h string) error // replaces the design document of a collection by the other variant (h: through which handle)
 }
 
 func (x *Ctx) resolveCas(op *GenOp) uint64 {
@@ -506,7 +506,7 @@ func (x *Ctx) Exec(c *rosmar.Collection, bucket *rosmar.Bucket, op *GenOp) (a Ar
 		r.Body = AbstractBody(v)
 	case "SwapDDoc":
 		if x.swapDDoc != nil {
-			err = x.swapDDoc(op.Coll)
+			err = x.swapDDoc(op.Coll, op.H)
 		}
 	case "Nop":
 	default:
